@@ -27,6 +27,7 @@ def canonical_text_post(n, L, chars):
 
 
 class IntsToStrings(Harness):
+    boundary_witnesses = True
     name = "ints_to_strings"
     functions = ("bionumpy.io.strops.ints_to_strings", "_build_power_array", "change_encoding")
     assumptions = ("np.log10(int).astype(int) modelled as the Int step function with breakpoints measured on the real "
@@ -75,6 +76,7 @@ class IntsToStrings(Harness):
 
 
 class StrToInt(Harness):
+    boundary_witnesses = True
     name = "str_to_int"
     functions = ("bionumpy.io.strops.str_to_int", "_build_power_array")
     bounds = {"quick": "1-3 rows, widths from {1,2,3,5}, every row: optional sign (+/-) then digits (leading zeros allowed)",
@@ -136,6 +138,7 @@ class StrToInt(Harness):
 
 
 class StrToFloat(Harness):
+    boundary_witnesses = True
     """which real number str_to_float computes (exact-real model): decimal and lower-case scientific text, mixed in one batch"""
     name = "str_to_float"
     functions = ("bionumpy.io.strops.str_to_float", "_decimal_str_to_float", "_scientific_str_to_float", "_build_power_array (dots)")
@@ -154,6 +157,8 @@ class StrToFloat(Harness):
         out += [dict(shapes=list(p)) for p in pairs] + [dict(shapes=["d.d", "dde-d", "sdd"])]
         # the ends of the double range (literal exponents): the value must still be the text's value
         out += [dict(shapes=[a]) for a in ("d.ddem307", "d.ddddem305", "dep307", "d.dep300", "sd.ddddddddem300")] + [dict(shapes=["d.d", "d.ddem307"])]
+        # many decimals (the scale 10^n passes 2^63 at n = 19) and many integer digits
+        out += [dict(shapes=["d." + "d" * 19]), dict(shapes=["0.000" + "d" * 17]), dict(shapes=["d" * 17 + ".d"])]
         if tier == "thorough":
             out += [dict(shapes=[a, b]) for a in S for b in S if (a, b) not in pairs][::3]
             out += [dict(shapes=["sd.de+d", "d", "d.dd", "de+dd"])]
@@ -327,17 +332,19 @@ from checks.C02 import Delimited as _Delimited
 
 
 class DigitColumns(_Delimited):
+    boundary_witnesses = True
     """integer columns of parsed files: the fixed-width digit matrix (right-aligned windows over the raw buffer) and both str_to_int
     paths; every batch is also presented in reversed row order (the result for one row never depends on the other rows)"""
     name = "digit_columns"
     functions = ("move_intervals_to_digit_array", "TextBufferExtractor.get_digit_array", "str_to_int (2-d digit matrix and ragged paths)",
                  "DelimitedBuffer._get_field_by_number")
-    bounds = {"quick": "BED3 and chrom.sizes files, 1-3 records, integer fields of 1-12 digits with very unequal widths in one column "
+    bounds = {"quick": "BED3 and chrom.sizes files, 1-3 records, integer fields of 1-12 and 16-18 digits (beyond 2^53) with very unequal widths in one column "
                        "(also: first record shorter than the column's widest value), both row orders, signed columns, LF/CRLF",
               "thorough": "more width patterns"}
 
     def skeletons(self, tier, seed):
-        out = []
+        out = [dict(fmt="bed3", rows=[[1, 17, 18]], crlf=False), dict(fmt="bed3", rows=[[1, 1, 18], [1, 17, 2]], crlf=False),
+               dict(fmt="chromsizes", rows=[[1, 18], [2, 16]], crlf=False)]          # values beyond 2^53 (still below 2^63)
         for sk in super().skeletons(tier, seed):
             if sk["fmt"] not in ("bed3", "chromsizes") or sk.get("header"):
                 continue
